@@ -17,7 +17,7 @@ import (
 func c03Cells(tier string) []Cell {
 	var cells []Cell
 
-	for front := 0; front < 3; front++ {
+	for front := 0; front < len(frontNames); front++ {
 		for bits := 0; bits < 64; bits++ {
 			for _, init := range []string{"A", "F", "S", "T"} {
 				for _, sc := range []string{"o", "f"} {
@@ -37,7 +37,7 @@ func c03Cells(tier string) []Cell {
 	}
 
 	// Sequences: the table cells entered from non-initial states (every sequence of <=4 / <=5 operations).
-	for front := 0; front < 3; front++ {
+	for front := 0; front < len(frontNames); front++ {
 		for bits := 0; bits < 32; bits++ {
 			for _, init := range []string{"A", "S", "T", "F"} {
 				c := FCfg{
